@@ -10,6 +10,7 @@ __kwdefaults__, annotations (as ASTs) and - for the embedsignature cells - the p
 obtained by parsing the embedded signature line and evaluating the printed defaults in the module namespace."""
 import ast
 import os
+from concurrent.futures import ThreadPoolExecutor
 import re
 
 from vlib import core, cy, diff
@@ -348,11 +349,16 @@ def main(ck):
     eg = siggen.ExprGen(rng, env)
     nfun = ck.pick(420, 6000)
     per_mod = ck.pick(140, 500)
+    # the code-object constants are packed into bit fields whose widths are module-wide maxima (parameter counts, variables,
+    # line numbers): besides the large modules, small modules of 1-3 functions (half of them with unusually many
+    # parameters of one kind) make those maxima vary
+    nsmall = ck.pick(60, 400)
     fns = []        # dict(path, scope, info, lines)
-    for i in range(nfun):
+    for i in range(nfun + nsmall):
         name = 'fz%dz' % i
         scope = rng.choice(['module', 'module', 'class', 'nested-class', 'closure', 'closure-in-method'])
         depth = rng.choice([2, 3, 3, 4])
+        siggen.WIDE = i >= nfun and rng.random() < .5
         if scope == 'module':
             lines, info = siggen.gen_def(rng, eg, name, depth=depth)
             path, is_method = name, False
@@ -381,6 +387,8 @@ def main(ck):
             path, is_method = name, False
         fns.append({'name': name, 'path': path, 'scope': scope, 'info': info, 'src': '\n'.join(lines) + '\n',
                     'is_method': is_method})
+    siggen.WIDE = False
+    small_fns, fns = fns[nfun:], fns[:nfun]
     cells = ['plain', 'python', 'c', 'clinic']
     share = {'plain': 1.0, 'python': 1.0, 'c': ck.pick(0.5, 0.5), 'clinic': ck.pick(0.35, 0.3)}
     jobs, meta = [], []
@@ -395,6 +403,17 @@ def main(ck):
                 fh.write(HEADER + '\n'.join(f['src'] for f in chunk))
             jobs.append({'src': path, 'directives': CELLS[cell]})
             meta.append((cell, name, chunk, path, d))
+    d = tree.subdir('b_plain')
+    gi = 0
+    while gi < len(small_fns):
+        chunk = small_fns[gi:gi + rng.choice([1, 1, 2, 3])]
+        name = 'c25s%d' % gi
+        gi += len(chunk)
+        path = os.path.join(d, name + '.py')
+        with open(path, 'w', encoding='utf-8') as fh:
+            fh.write(HEADER + '\n'.join(f['src'] for f in chunk))
+        jobs.append({'src': path, 'directives': CELLS['plain']})
+        meta.append(('plain', name, chunk, path, d))
     tres, _ = tree.translate(jobs, nworkers=min(core.NCPU, ck.pick(5, 10)), timeout=ck.pick(1800, 3600))
     skipped = 0
     skipped_functions = 0
@@ -442,7 +461,9 @@ def main(ck):
     samples = []
     nparens = {c: 0 for c in cells}
     ndefaults = {c: 0 for c in cells}
-    byname = {f['name']: f for f in fns}
+    byname = {f['name']: f for f in fns + small_fns}
+    small_modules = 0
+    prepared = []
     for m, b in zip(okm, bres):
         cell, name, chunk, path, d, cfile = m
         if not b['ok']:
@@ -463,8 +484,18 @@ def main(ck):
             ndefaults[cell] += sum(1 for p in f['info']['params'] if p[2] is not None)
         idx = {c['x']: c['fn'] for c in cases}
         run = [{k: v for k, v in c.items() if k != 'fn'} for c in cases]
-        res = diff.run_cases(tree, d, name, run, ref=path, compare={'exc_args': False, 'log': False}, setup=SETUP,
-                             tagdir='run_%s_%s' % (cell, name), timeout=ck.pick(900, 1800), nproc=ck.pick(2, 4))
+        small_modules += name.startswith('c25s')
+        prepared.append((m, idx, run))
+
+    def run_one(pr):
+        (cell, name, chunk, path, d, cfile), idx, run = pr
+        return diff.run_cases(tree, d, name, run, ref=path, compare={'exc_args': False, 'log': False}, setup=SETUP,
+                              tagdir='run_%s_%s' % (cell, name), timeout=ck.pick(900, 1800),
+                              nproc=1 if name.startswith('c25s') else ck.pick(2, 4))
+    with ThreadPoolExecutor(ck.pick(5, 6)) as ex:
+        results = list(ex.map(run_one, prepared))
+    for (m, idx, run), res in zip(prepared, results):
+        cell, name, chunk, path, d, cfile = m
         total_n += res.n
         total_distinct += res.distinct
         samples.extend(res.samples[:1])
@@ -527,6 +558,8 @@ def main(ck):
         ck.inconclusive_if(not any(k.startswith(cell + '/') for k in cell_counts), 'cell %s observed no function' % cell)
     ck.inconclusive_if(skipped > 0.2 * len(jobs), '%d of %d modules failed to build' % (skipped, len(jobs)))
     ck.cov['skipped_build_failure'] = skipped
+    ck.cov['small_modules_observed'] = small_modules
+    ck.inconclusive_if(small_modules < 10, 'fewer than 10 small modules were observed')
     return ck.finish(
         total_n, total_distinct,
         'generated def statements (module / class / nested class / closure / closure in method scopes; positional-only, '
